@@ -208,6 +208,33 @@ example :
             ([0, 0, 1, 0], 1, false), ([0, 0, 1, 0], 0, false), ([0, 0, 1, 0], 0, false),
             ([0, 0, 1], 1, false), ([0, 0], 1, true), ([0], 0, true)] := by decide
 
+/-! ### The doctype writer -/
+
+/-- Full-strength rule for the doctype (XML 1.0 VC "Root Element Type"): the name written in
+    `<!DOCTYPE name …>` is the name written in the root element's start tag.  FALSE for the code as
+    written: the doctype name is computed with `prefix_for_namespace` (first binding in declaration
+    order), the start tag with `FullnameSerializer::element_fullname` (default namespace
+    preferred, else the most recent binding). -/
+def C14_doctype_Statement : Prop :=
+  ∀ (env : Env) (name : Nat) (ks : List Tree) (dn : Str) (toks : List (Path × Output × OutputToken)),
+    doctypeName env (.node (.element name) ks) [] = .ok dn →
+    tokens env {} (.node (.element name) ks) [] = .ok toks →
+    (toks.head?.map (fun k => k.2.2.text)) = some (fmt Gen.fmtStartTagOpen [dn])
+
+/-- Closed witness: `<a xmlns:r="u" xmlns:q="u"/>` with `a` in namespace `u` serialises as
+    `<!DOCTYPE r:a SYSTEM "d">` followed by `<q:a xmlns:r="u" xmlns:q="u"/>`. -/
+theorem C14_doctype_false : ¬ C14_doctype_Statement := by
+  intro h
+  have := h ⟨[[], ['X'], ['u']], [[], ['x','m','l'], ['p'], ['q'], ['r']], [(['a'], 2)]⟩ 0
+    [.node (.namespace 4 2) [], .node (.namespace 3 2) []] ['r', ':', 'a']
+    [([], .startTagOpen 0, ⟨false, ['<','q',':','a']⟩), ([], .pfx 1 1, ⟨false, []⟩),
+     ([], .pfx 4 2, ⟨true, ['x','m','l','n','s',':','r','=','"','u','"']⟩),
+     ([], .pfx 3 2, ⟨true, ['x','m','l','n','s',':','q','=','"','u','"']⟩),
+     ([], .startTagClose, ⟨false, ['/','>']⟩), ([], .endTag 0, ⟨false, []⟩)]
+    (by decide) (by decide)
+  revert this
+  decide
+
 /-! ### The same rules read off the tree -/
 
 /-- Traversal invariant of the `Pretty` stack: the indentation and newline of every pretty token
